@@ -16,11 +16,16 @@
 //             (ret V)     co_return acc + V
 //             (thr E)     throw Err{E}
 //             (sir)       co_await stop_if_requested()
+//             (sirs)      co_await then(stop_if_requested(), f)   (the SENDER route of stop_if_requested)
+//             (pw I) (tpw I)  acc += co_await <plain awaitable I> (not a sender; tpw: inside try/catch)
 //             (rs K)      co_await schedule(scheduler K)      (the task moves to scheduler K; source/task.cpp)
 //   specs  := I=i:O | I=ia:O | I=p:ign | I=p:O | I=pa:ign | I=pa:O    O := vN | eN | d
 //             i = completes inside start(), p = stays pending (O = how it completes when it gets a
 //             stop notification, ign = ignores it); a = the sender declares is_always_scheduler_affine
 //             (otherwise task<> wraps it: finally(leaf, unstoppable(schedule(sched))) — a hop)
+//             plain awaitables: I=r:O ready | I=b0:O bool await_suspend returns false | I=h0:O handle-returning
+//             await_suspend returns the awaiting coroutine (these complete inline with O = vN | eN);
+//             I=b1:ign | I=h1:ign | I=vd:ign really suspend (bool true / noop_coroutine / void) until cI:O
 //   events := start | stop | run | cI:O | c?:O   run = the manual scheduler executes its oldest item;
 //             c?:O completes whatever leaf is pending (a cleanup leaf always with v0)
 //   inl|man: the schedulers complete schedule() inline / queue it until `run` (one FIFO for all of them);
@@ -35,6 +40,9 @@
 //   lsI:S leaf I started, S = stop already requested on its token   lpI leaf I got a stop notification
 //   ldF locals of frame F destroyed    clF:A cleanup A of frame F ran    fdF frame F destroyed
 //   cqK the cleanup action that just started sees scheduler K through its receiver
+//   psI plain awaitable I was awaited (await_ready called)
+//   cbN (:w mode) N callbacks are registered on the receiver's stop token — printed just before R=… and after
+//       the operation state was destroyed
 //   sqK a schedule() operation of scheduler K was started (K = 0: the receiver's scheduler)
 //   scK a schedule() operation of scheduler K saw a stop request on its receiver's token and completed with done
 //       (the schedulers are cancellable; the library's internal hops must be unstoppable)
@@ -44,6 +52,7 @@
 #include <unifex/just.hpp>
 #include <unifex/stop_if_requested.hpp>
 #include <unifex/task.hpp>
+#include <unifex/then.hpp>
 
 #include <cstdio>
 #include <cstdlib>
@@ -74,7 +83,8 @@ static int errcode(std::exception_ptr e) {
 struct LeafOpBase { virtual void complete(char chan, int val) = 0; virtual ~LeafOpBase() = default; };
 struct SchedOpBase { virtual void run() = 0; virtual ~SchedOpBase() = default; };
 
-struct Spec { bool inline_ = true; bool affine = false; char chan = 'v'; int val = 0; bool reacts = false; };
+struct Spec { bool inline_ = true; bool affine = false; char chan = 'v'; int val = 0; bool reacts = false;
+              char plain = 0; };   // plain awaitable: 'r' ready, 'b' bool await_suspend, 'h' handle-returning, 'v' void
 
 struct World {
   std::map<int, Spec> specs;
@@ -87,6 +97,9 @@ struct World {
   bool started = false;
   int nextFrame = 0;
   std::map<int, int> frameDestroyed;
+  std::map<int, bool> isPlain;             // pending item is a plain awaitable (cannot complete with done)
+  std::map<int, int> sirState;             // per frame: 1 = a stop_if_requested statement is in flight and must continue, 2 = must cancel
+  std::shared_ptr<int> tokRegs;            // :w mode: callbacks currently registered on the receiver's (counting) stop token
   void emit(std::string s) { out.push_back(std::move(s)); }
 };
 
@@ -197,6 +210,55 @@ struct LeafSender {
   }
 };
 
+// ---------------------------------------------------------------- plain awaitables (NOT senders)
+// awaited inside task<> they go await_transform -> (awaitable_wrapper when async stacks are on) ->
+// with_scheduler_affinity -> as_sender/connect_awaitable -> finally(…, unstoppable(schedule(sched)))
+struct PlainBase : LeafOpBase {
+  World* w; int id; Spec sp; coro::coroutine_handle<> h{}; char chan = 'v'; int val = 0;
+  PlainBase(World* w, int id) : w(w), id(id), sp(w->specs.count(id) ? w->specs[id] : Spec{}) { chan = sp.chan; val = sp.val; }
+  bool ready() { w->emit("ps" + std::to_string(id)); return sp.plain == 'r'; }
+  void park(coro::coroutine_handle<> hh) { h = hh; w->running[id] = this; w->inCleanup[id] = false; w->isPlain[id] = true; }
+  void complete(char c, int v) override {
+    w->running.erase(id); w->inCleanup.erase(id); w->isPlain.erase(id);
+    if (c == 'd') { c = 'v'; v = 0; }      // a plain awaitable has no done channel
+    chan = c; val = v;
+    h.resume();
+  }
+  int result() { if (chan == 'e') throw Err{val}; return val; }
+};
+struct PlainB : PlainBase {   // bool await_suspend: false = "did not need to suspend after all"
+  using PlainBase::PlainBase;
+  bool await_ready() { return ready(); }
+  bool await_suspend(coro::coroutine_handle<> hh) { if (sp.inline_) return false; park(hh); return true; }
+  int await_resume() { return result(); }
+};
+struct PlainH : PlainBase {   // handle-returning await_suspend: the awaiting coroutine itself = do not suspend
+  using PlainBase::PlainBase;
+  bool await_ready() { return ready(); }
+  coro::coroutine_handle<> await_suspend(coro::coroutine_handle<> hh) { if (sp.inline_) return hh; park(hh); return coro::noop_coroutine(); }
+  int await_resume() { return result(); }
+};
+struct PlainV : PlainBase {   // void await_suspend: always suspends
+  using PlainBase::PlainBase;
+  bool await_ready() { return ready(); }
+  void await_suspend(coro::coroutine_handle<> hh) { park(hh); }
+  int await_resume() { return result(); }
+};
+
+// silent probe: what does the task's stop token say right now?  (monitor for stop_if_requested, model-independent)
+struct TokProbe {
+  template <template <typename...> class Variant, template <typename...> class Tuple>
+  using value_types = Variant<Tuple<bool>>;
+  template <template <typename...> class Variant>
+  using error_types = Variant<std::exception_ptr>;
+  static constexpr bool sends_done = false;
+  static constexpr bool is_always_scheduler_affine = true;
+  template <typename R>
+  struct Op { R r; void start() noexcept { bool b = get_stop_token(r).stop_requested(); unifex::set_value(std::move(r), (bool)b); } };
+  template <typename R>
+  friend Op<remove_cvref_t<R>> tag_invoke(tag_t<connect>, TokProbe, R&& r) { return Op<remove_cvref_t<R>>{(R&&)r}; }
+};
+
 // ---------------------------------------------------------------- programs
 struct Stmt;
 using Prog = std::vector<Stmt>;
@@ -297,8 +359,28 @@ static task<int> interp(World* w, std::shared_ptr<Prog> prog, FrameTag tag) {
       co_return acc + s.a;
     } else if (s.k == "thr") {
       throw Err{s.a};
-    } else if (s.k == "sir") {
-      co_await stop_if_requested();
+    } else if (s.k == "sir" || s.k == "sirs") {
+      // both routes of stop_if_requested(): its awaiter (direct co_await) and its sender operation (composed
+      // with a sender algorithm first); monitor: it continues iff the task's token has no stop request
+      bool req = co_await TokProbe{};
+      w->sirState[me] = req ? 2 : 1;
+      if (s.k == "sir") co_await stop_if_requested();
+      else co_await then(stop_if_requested(), []() noexcept {});
+      if (req) w->emit("!!sir-continued-although-stop-requested");
+      w->sirState[me] = 0;
+    } else if (s.k == "pw" || s.k == "tpw") {
+      char kind = w->specs.count(s.a) ? w->specs[s.a].plain : 'r';
+      if (s.k == "pw") {
+        if (kind == 'h') acc += co_await PlainH{w, s.a};
+        else if (kind == 'v') acc += co_await PlainV{w, s.a};
+        else acc += co_await PlainB{w, s.a};
+      } else {
+        try {
+          if (kind == 'h') acc += co_await PlainH{w, s.a};
+          else if (kind == 'v') acc += co_await PlainV{w, s.a};
+          else acc += co_await PlainB{w, s.a};
+        } catch (const Err& e) { acc += catchVal(e.code); }
+      }
     } else if (s.k == "rs") {
       co_await schedule(ManualScheduler{w, s.a});
     }
@@ -309,14 +391,20 @@ static task<int> interp(World* w, std::shared_ptr<Prog> prog, FrameTag tag) {
 // ---------------------------------------------------------------- root receivers
 struct RootBase {
   World* w; inplace_stop_source* src;
-  void record(const std::string& s) {
+  void record(const std::string& s, bool done) {
     if (!w->started) w->emit("!!completion-before-start");
     if (++w->rootCompletions > 1) w->emit("!!root-completed-twice");
+    if (w->tokRegs) {
+      // :w mode — nothing may be left registered on the receiver's stop token when the task has produced a
+      // value or an exception (on the done path the awaiter releases it when it is destroyed)
+      w->emit("cb" + std::to_string(*w->tokRegs));
+      if (!done && *w->tokRegs != 0) w->emit("!!cbreg=" + std::to_string(*w->tokRegs));
+    }
     w->emit(s);
   }
-  void set_value(int v) noexcept { record("R=v" + std::to_string(v)); }
-  void set_error(std::exception_ptr e) noexcept { record("R=e" + std::to_string(errcode(e))); }
-  void set_done() noexcept { record("R=d"); }
+  void set_value(int v) noexcept { record("R=v" + std::to_string(v), false); }
+  void set_error(std::exception_ptr e) noexcept { record("R=e" + std::to_string(errcode(e)), false); }
+  void set_done() noexcept { record("R=d", true); }
 };
 // (default) the receiver exposes an inplace_stop_token: task<> interposes the stop-request thunk
 struct RootReceiver : RootBase {
@@ -327,20 +415,25 @@ struct RootReceiver : RootBase {
 struct RootReceiverU : RootBase {
   friend ManualScheduler tag_invoke(tag_t<get_scheduler>, const RootReceiverU& r) noexcept { return ManualScheduler{r.w, 0}; }
 };
-// `:w` the receiver exposes a stop token of a foreign type: the awaiter adapts it (inplace_stop_token_adapter)
-struct WrapToken {
+// `:w` the receiver exposes a stop token of a foreign type: the awaiter adapts it (inplace_stop_token_adapter).
+// The token COUNTS the callbacks registered on it (+1 at construction, -1 when invoked or destroyed).
+struct CountTok {
   inplace_stop_token t;
+  std::shared_ptr<int> n;
   bool stop_requested() const noexcept { return t.stop_requested(); }
   bool stop_possible() const noexcept { return t.stop_possible(); }
   template <typename F>
   struct callback_type {
-    typename inplace_stop_token::template callback_type<F> cb;
-    template <typename T>
-    explicit callback_type(WrapToken tok, T&& f) : cb(tok.t, (T&&)f) {}
+    struct Fire { callback_type* self; void operator()() noexcept { std::move(self->f)(); } };
+    F f; std::shared_ptr<int> n;
+    inplace_stop_callback<Fire> cb;
+    template <typename F2>
+    callback_type(CountTok tok, F2&& f2) : f((F2&&)f2), n((++*tok.n, std::move(tok.n))), cb(tok.t, Fire{this}) {}
+    ~callback_type() { --*n; }
   };
 };
 struct RootReceiverW : RootBase {
-  friend WrapToken tag_invoke(tag_t<get_stop_token>, const RootReceiverW& r) noexcept { return WrapToken{r.src->get_token()}; }
+  friend CountTok tag_invoke(tag_t<get_stop_token>, const RootReceiverW& r) noexcept { return CountTok{r.src->get_token(), r.w->tokRegs}; }
   friend ManualScheduler tag_invoke(tag_t<get_scheduler>, const RootReceiverW& r) noexcept { return ManualScheduler{r.w, 0}; }
 };
 
@@ -372,6 +465,7 @@ static std::string run_case_impl(const std::string& line) {
   std::string id = trim(parts[0]);
   World w;
   w.inlineSched = trim(parts[1]).rfind("man", 0) != 0;
+  if constexpr (std::is_same_v<Rcv, RootReceiverW>) w.tokRegs = std::make_shared<int>(0);
   {
     std::stringstream ss(parts[3]); std::string tok;
     while (ss >> tok) {
@@ -383,6 +477,9 @@ static std::string run_case_impl(const std::string& line) {
       Spec sp;
       sp.inline_ = kind[0] == 'i';
       sp.affine = kind.size() > 1 && kind[1] == 'a';
+      // plain awaitables: r ready | b0 bool false | h0 handle self  (complete inline) ; b1 | h1 | vd (suspend)
+      if (kind == "r" || kind == "b0" || kind == "h0") { sp.plain = kind[0]; sp.inline_ = true; }
+      if (kind == "b1" || kind == "h1" || kind == "vd") { sp.plain = kind[0]; sp.inline_ = false; }
       if (arg == "ign") sp.reacts = false;
       else { sp.reacts = !sp.inline_; parse_outcome(arg, sp.chan, sp.val); }
       w.specs[i] = sp;
@@ -393,8 +490,8 @@ static std::string run_case_impl(const std::string& line) {
   inplace_stop_source src;
   std::string res = id;
   {
-    auto op = std::make_unique<connect_result_t<task<int>, Rcv>>(
-        unifex::connect(interp(&w, prog, FrameTag{&w, w.nextFrame++}), Rcv{{&w, &src}}));
+    using OpT = connect_result_t<task<int>, Rcv>;   // not movable when async stacks are on: construct in place
+    std::unique_ptr<OpT> op(new OpT(unifex::connect(interp(&w, prog, FrameTag{&w, w.nextFrame++}), Rcv{{&w, &src}})));
     w.out.clear();
     std::stringstream es(parts[4]); std::string ev;
     auto one = [&](const std::string& ev) {
@@ -411,6 +508,7 @@ static std::string run_case_impl(const std::string& line) {
           int i = w.running.begin()->first;
           char ch; int v; parse_outcome(ev.substr(3), ch, v);
           if (w.inCleanup[i]) { ch = 'v'; v = 0; }
+          if (w.isPlain.count(i) && ch == 'd') { ch = 'v'; v = 0; }
           w.running.begin()->second->complete(ch, v);
         }
       }
@@ -430,11 +528,20 @@ static std::string run_case_impl(const std::string& line) {
       if (!w.queue.empty()) one("run");
       else {
         int i = w.running.begin()->first;
-        one("c" + std::to_string(i) + (w.inCleanup[i] ? ":v0" : ":d"));
+        one("c" + std::to_string(i) + (w.inCleanup[i] || w.isPlain.count(i) ? ":v0" : ":d"));
       }
     }
     if (w.started && w.rootCompletions != 1) res += " | !!root-completions=" + std::to_string(w.rootCompletions);
+    for (auto& kv : w.sirState)
+      if (kv.second == 1) res += " | !!sir-cancelled-without-stop-request";
     op.reset();
+    if (w.tokRegs) {
+      w.emit("cb" + std::to_string(*w.tokRegs));
+      if (*w.tokRegs != 0) w.emit("!!cbreg-after-destroy=" + std::to_string(*w.tokRegs));
+    }
+    // a late stop request, after the operation state is gone: nothing may be left behind to receive it (ASan).
+    // (skipped when the counting token has already reported a leftover registration, so that report survives)
+    if (!(w.tokRegs && *w.tokRegs != 0)) src.request_stop();
     res += " | " + flush(w);
   }
   for (int f = 0; f < w.nextFrame; ++f)
